@@ -19,7 +19,8 @@ namespace Parsley.C10
 open Parsley Parsley.TC Parsley.TC.Spec
 open Parsley.CatalogRules (Doc Node Nodes PageOpts CatOpts Mutation Where kType kPages kCount kParent
   pageDict nodeDict catalogDict arrOf optEnt DictKind ValKind keyTable requiredKeys forbiddenKeys
-  nCatalog nPage nTemplate nameAt fitsKind structural kindChange refEntry lookupKey locate mutate editAt editDict)
+  nCatalog nPage nTemplate nameAt fitsKind structural kindChange refEntry lookupKey locate mutate editAt editDict
+  pageRows catRows isDictO isArrO isStreamO)
 
 /-! ### PART A: inversion of `Conforms` -/
 
@@ -127,6 +128,17 @@ theorem inv_array {g : Graph} {ctx : Ctx} {o : Obj} {c : Chk} {a : Attr} {e : Ch
         rw [hv] at this
         simp only [shapeOK, Bool.and_eq_true, List.all_eq_true] at this
         exact this.2 x hx
+  | _ =>
+    have := hu.2.2 0
+    rw [hv] at this
+    simp [shapeOK] at this
+
+theorem inv_stream {g : Graph} {ctx : Ctx} {o : Obj} {c : Chk} {a : Attr} {ents : ChkL}
+    (h : Conforms g ctx o c) (hres : resolve ctx c = some (.stream a ents)) :
+    ∃ kvs s bs, value g o = .stream kvs s bs := by
+  have hu := Conforms_unfold h hres
+  cases hv : value g o with
+  | stream kvs s bs => exact ⟨kvs, s, bs, rfl⟩
   | _ =>
     have := hu.2.2 0
     rw [hv] at this
@@ -330,6 +342,100 @@ theorem kind_sound (g : Graph) (hg : DS g) (vk : ValKind) (c' : Chk) (hm : kindM
     rw [hval] at hxs
     subst hxs
     rfl
+  | dict =>
+    have hr : res c' = .dict Attr.dflt .nil := by simpa [kindMatches] using hm
+    obtain ⟨kvs, hk, _⟩ := inv_dict hc (resolve_of_res c' _ hr (by simp))
+    rw [hval] at hk
+    subst hk
+    rfl
+  | stream =>
+    have hr : res c' = .stream Attr.dflt .nil := by simpa [kindMatches] using hm
+    obtain ⟨kvs, st, bs, hk⟩ := inv_stream hc (resolve_of_res c' _ hr (by simp))
+    rw [hval] at hk
+    subst hk
+    rfl
+  | arrayOfDict =>
+    have hr : res c' = .array Attr.dflt (.dict Attr.dflt .nil) none := by simpa [kindMatches] using hm
+    obtain ⟨xs, hxs, _, hall⟩ := inv_array hc (resolve_of_res c' _ hr (by simp))
+    rw [hval] at hxs
+    subst hxs
+    simp only [refEntry, List.any_eq_false] at hre
+    simp only [fitsKind, List.all_eq_true]
+    intro x hx
+    have hxr : x.isRef = false := by simpa using hre x hx
+    obtain ⟨kvs, hk, _⟩ := inv_dict (a := Attr.dflt) (hall x hx) rfl
+    rw [value_nonref g x hxr] at hk
+    subst hk
+    rfl
+  | contents =>
+    have hr : res c' = contentsChk := by simpa [kindMatches] using hm
+    have hd := inv_disj hc (resolve_of_res c' _ hr (by simp [contentsChk]))
+    obtain ⟨alt, hmem, hca⟩ := hd.2
+    simp only [ChkL.chks, ChkL.toList, List.map_cons, List.map_nil, List.mem_cons, List.not_mem_nil, or_false] at hmem
+    rcases hmem with rfl | rfl
+    · obtain ⟨kvs, st, bs, hk⟩ := inv_stream (a := Attr.dflt) hca rfl
+      rw [hval] at hk
+      subst hk
+      rfl
+    · obtain ⟨xs, hxs, _, hall⟩ := inv_array (a := Attr.dflt) hca rfl
+      rw [hval] at hxs
+      subst hxs
+      simp only [refEntry, List.any_eq_false] at hre
+      simp only [fitsKind, List.all_eq_true]
+      intro x hx
+      have hxr : x.isRef = false := by simpa using hre x hx
+      obtain ⟨kvs, st, bs, hk⟩ := inv_stream (a := Attr.dflt) (hall x hx) rfl
+      rw [value_nonref g x hxr] at hk
+      subst hk
+      rfl
+  | resources =>
+    simp only [kindMatches, resourcesMatches] at hm
+    split at hm
+    · next a ents hr =>
+      simp only [Bool.and_eq_true, decide_eq_true_eq, List.all_eq_true] at hm
+      obtain ⟨⟨⟨_, _⟩, hkeys⟩, hproc⟩ := hm
+      obtain ⟨kvs, hk, hdc⟩ := inv_dict hc (resolve_of_res c' _ hr (by simp))
+      rw [hval] at hk
+      subst hk
+      have hnoref : ∀ k ∈ CatalogRules.kProcSet :: CatalogRules.resourceDictKeys, ∀ t, kvs.get k = some t →
+          t.isRef = false := by
+        intro k hk t ht
+        simp only [refEntry, List.any_eq_false] at hre
+        have := hre k hk
+        simpa [ht] using this
+      simp only [fitsKind, Bool.and_eq_true, List.all_eq_true]
+      refine ⟨?_, ?_⟩
+      · intro k hk
+        have hkm := hkeys k hk
+        cases hf : findEnt ents k with
+        | none => simp [hf] at hkm
+        | some oc =>
+          obtain ⟨opt, c''⟩ := oc
+          simp only [hf, Bool.and_eq_true, decide_eq_true_eq] at hkm
+          cases hg' : kvs.get k with
+          | none => rfl
+          | some t =>
+            have hct := (hdc k opt c'' hf).2.2 t hg'
+            have htr := hnoref k (List.mem_cons_of_mem _ hk) t hg'
+            obtain ⟨kvs', hk', _⟩ := inv_dict hct (resolve_of_res c'' _ hkm.2 (by simp))
+            rw [value_nonref g t htr] at hk'
+            subst hk'
+            rfl
+      · cases hf : findEnt ents CatalogRules.kProcSet with
+        | none => simp [hf] at hproc
+        | some oc =>
+          obtain ⟨opt, c''⟩ := oc
+          simp only [hf, Bool.and_eq_true, decide_eq_true_eq] at hproc
+          cases hg' : kvs.get CatalogRules.kProcSet with
+          | none => rfl
+          | some t =>
+            have hct := (hdc _ opt c'' hf).2.2 t hg'
+            have htr := hnoref _ List.mem_cons_self t hg'
+            obtain ⟨xs, hxs, _, _⟩ := inv_array hct (resolve_of_res c'' _ hproc.2 (by simp))
+            rw [value_nonref g t htr] at hxs
+            subst hxs
+            rfl
+    · simp at hm
   | arrayOrDict =>
     have hr : res c' = arrayOrDictChk := by simpa [kindMatches] using hm
     have hd := inv_disj hc (resolve_of_res c' _ hr (by simp [arrayOrDictChk]))
@@ -455,13 +561,14 @@ end
 
 theorem graph_DS (d : Doc) : DS d.graph := by
   apply DS_of_allDS
-  rw [graph_split, allDS_append, allDS_append]
+  rw [graph_split, allDS_append, allDS_append, allDS_append]
   simp only [Bool.and_eq_true]
-  refine ⟨?_, ?_, ?_⟩
+  refine ⟨?_, ?_, ?_, ?_⟩
   · simp only [treeGraph, allDS, List.all_cons, Bool.and_eq_true]
     exact ⟨rfl, defss_allDS d.kids d.rootId⟩
   · cases d.cat.outlines <;> rfl
   · cases d.cat.metadata <;> rfl
+  · cases d.cat.x.dests <;> rfl
 
 theorem editDict_DS (f : ObjL → ObjL) (v : Obj) (h : isDS v = true) : isDS (editDict f v) = true := by
   cases v <;> simp_all [isDS, editDict]
@@ -1130,6 +1237,44 @@ example : ¬ Conforms (mutate wMut1 wDoc1).1 shippedCtx (mutate wMut1 wDoc1).2 s
 example : ¬ Conforms (mutate (.wrongType (.obj 1) kCount (.str [0x31])) wDoc3).1 shippedCtx
     (mutate (.wrongType (.obj 1) kCount (.str [0x31])) wDoc3).2 shippedCat :=
   mutated_rejected wDoc3 (by decide) _ (by decide)
+
+/-! the entries added by the extended menu (`exDocFull`: page 2 and template 3 carry every entry): /B of the wrong
+    type on a page (the surviving mutant of the mutation sweep deleted this entry from `page_type`), an ill-typed
+    /Resources sub-entry, /Contents as an array with a non-stream element, /AF with a non-dictionary element, a
+    dictionary-typed catalog entry given as an array, a name tree of the name dictionary that is ill-formed -/
+example : ¬ Conforms (mutate (.wrongType (.obj 2) CatalogRules.kB (.int 5)) CatalogRules.exDocFull).1 shippedCtx
+    (mutate (.wrongType (.obj 2) CatalogRules.kB (.int 5)) CatalogRules.exDocFull).2 shippedCat :=
+  mutated_rejected CatalogRules.exDocFull (by decide) _ (by decide)
+example : ¬ Conforms (mutate (.wrongType (.obj 5) CatalogRules.kB (.name [0x58])) CatalogRules.exDocFull).1 shippedCtx
+    (mutate (.wrongType (.obj 5) CatalogRules.kB (.name [0x58])) CatalogRules.exDocFull).2 shippedCat :=
+  mutated_rejected CatalogRules.exDocFull (by decide) _ (by decide)
+def wBadResources : Obj := .dict (.cons CatalogRules.kFont (.int 3) .nil)
+example : ¬ Conforms (mutate (.wrongType (.obj 3) CatalogRules.kResources wBadResources) CatalogRules.exDocFull).1 shippedCtx
+    (mutate (.wrongType (.obj 3) CatalogRules.kResources wBadResources) CatalogRules.exDocFull).2 shippedCat :=
+  mutated_rejected CatalogRules.exDocFull (by decide) _ (by decide)
+def wBadContents : Obj := .arr (.cons [] (.stream .nil 0 []) (.cons [] (.dict .nil) .nil))
+example : ¬ Conforms (mutate (.wrongType (.obj 2) CatalogRules.kContents wBadContents) CatalogRules.exDocFull).1 shippedCtx
+    (mutate (.wrongType (.obj 2) CatalogRules.kContents wBadContents) CatalogRules.exDocFull).2 shippedCat :=
+  mutated_rejected CatalogRules.exDocFull (by decide) _ (by decide)
+example : ¬ Conforms (mutate (.wrongType (.obj 2) CatalogRules.kAF (.arr (.cons [] (.int 1) .nil))) CatalogRules.exDocFull).1
+    shippedCtx (mutate (.wrongType (.obj 2) CatalogRules.kAF (.arr (.cons [] (.int 1) .nil))) CatalogRules.exDocFull).2
+    shippedCat :=
+  mutated_rejected CatalogRules.exDocFull (by decide) _ (by decide)
+example : ¬ Conforms (mutate (.wrongType .catalog CatalogRules.kAcroForm (.arr .nil)) CatalogRules.exDocFull).1 shippedCtx
+    (mutate (.wrongType .catalog CatalogRules.kAcroForm (.arr .nil)) CatalogRules.exDocFull).2 shippedCat :=
+  mutated_rejected CatalogRules.exDocFull (by decide) _ (by decide)
+def wBadNames : Obj := .dict (.cons CatalogRules.kJavaScript (.dict (.cons CatalogRules.kNamesKey (.int 42) .nil)) .nil)
+example : ¬ Conforms (mutate (.wrongType .catalog CatalogRules.kNames wBadNames) wDoc3).1 shippedCtx
+    (mutate (.wrongType .catalog CatalogRules.kNames wBadNames) wDoc3).2 shippedCat :=
+  mutated_rejected wDoc3 (by decide) _ (by decide)
+
+/-- templates do not declare /B: an ill-typed /B on a template is NOT a violation of the rules (not a valid
+    mutation), and the shipped specification accepts it (unknown keys are not examined) -/
+example :
+    (Mutation.wrongType (.obj 3) CatalogRules.kB (.int 5)).valid CatalogRules.exDocFull = false ∧
+    conf (mutate (.wrongType (.obj 3) CatalogRules.kB (.int 5)) CatalogRules.exDocFull).1 shippedCtx 30
+      (mutate (.wrongType (.obj 3) CatalogRules.kB (.int 5)) CatalogRules.exDocFull).2 shippedCat = true := by
+  decide +kernel
 
 /-! ### PART E: the boundary of the rules -/
 
